@@ -10,6 +10,7 @@
 
 #include <map>
 #include <memory>
+#include <sys/resource.h>
 #include <sys/wait.h>
 
 using namespace pbt;
@@ -926,7 +927,13 @@ static ChildRes run_child(Scenario sc, const Case &c, long k, bool persistent) {
   pid_t pid = fork();
   if (pid == 0) {
     close(p[0]);
-    alarm(20);
+    {
+      struct rlimit rl;  // CPU-time limit, not wall-clock: load must not look like a hang
+      rl.rlim_cur = 20;
+      rl.rlim_max = 25;
+      setrlimit(RLIMIT_CPU, &rl);
+      alarm(1200);
+    }
     g_fd = p[1];
     g_sc = sc;
     g_case = &c;
